@@ -28,6 +28,7 @@ import (
 type variant struct {
 	name            string
 	ro, noSha, load bool
+	retryable       bool // built with a *Retryable constructor: its documented contract is that the client may re-send it
 	mk              func(src string) *rueidis.Lua
 }
 
@@ -36,11 +37,11 @@ var variants = []variant{
 	{name: "NewLuaScriptReadOnly", ro: true, mk: func(s string) *rueidis.Lua { return rueidis.NewLuaScriptReadOnly(s) }},
 	{name: "NewLuaScriptNoSha", noSha: true, mk: func(s string) *rueidis.Lua { return rueidis.NewLuaScriptNoSha(s) }},
 	{name: "NewLuaScriptReadOnlyNoSha", ro: true, noSha: true, mk: func(s string) *rueidis.Lua { return rueidis.NewLuaScriptReadOnlyNoSha(s) }},
-	{name: "NewLuaScriptRetryable", mk: func(s string) *rueidis.Lua { return rueidis.NewLuaScriptRetryable(s) }},
-	{name: "NewLuaScriptNoShaRetryable", noSha: true, mk: func(s string) *rueidis.Lua { return rueidis.NewLuaScriptNoShaRetryable(s) }},
+	{name: "NewLuaScriptRetryable", retryable: true, mk: func(s string) *rueidis.Lua { return rueidis.NewLuaScriptRetryable(s) }},
+	{name: "NewLuaScriptNoShaRetryable", noSha: true, retryable: true, mk: func(s string) *rueidis.Lua { return rueidis.NewLuaScriptNoShaRetryable(s) }},
 	{name: "NewLuaScript+LoadSHA1", load: true, mk: func(s string) *rueidis.Lua { return rueidis.NewLuaScript(s, rueidis.WithLoadSHA1(true)) }},
 	{name: "NewLuaScriptReadOnly+LoadSHA1", ro: true, load: true, mk: func(s string) *rueidis.Lua { return rueidis.NewLuaScriptReadOnly(s, rueidis.WithLoadSHA1(true)) }},
-	{name: "NewLuaScriptRetryable+LoadSHA1", load: true, mk: func(s string) *rueidis.Lua { return rueidis.NewLuaScriptRetryable(s, rueidis.WithLoadSHA1(true)) }},
+	{name: "NewLuaScriptRetryable+LoadSHA1", load: true, retryable: true, mk: func(s string) *rueidis.Lua { return rueidis.NewLuaScriptRetryable(s, rueidis.WithLoadSHA1(true)) }},
 	{name: "NewLuaScript+LoadSHA1(false)", mk: func(s string) *rueidis.Lua { return rueidis.NewLuaScript(s, rueidis.WithLoadSHA1(false)) }},
 }
 
@@ -63,6 +64,8 @@ type call struct {
 	multi  bool
 	res    rueidis.RedisResult
 	got    bool
+	// faulted: an injected transport / LOADING fault fired during the step this call belongs to (fault worlds only)
+	faulted bool
 }
 
 type step struct {
@@ -70,6 +73,7 @@ type step struct {
 	calls []*call
 	from  int // log window
 	to    int
+	tag   string // fingerprint tag of the step (kind, plus the injected fault in fault worlds)
 }
 
 type world struct {
@@ -87,6 +91,9 @@ type world struct {
 	rng     *rand.Rand
 	seq     int
 	steps   []*step
+	// fault worlds (faults_test.go)
+	faultWorld bool
+	noRetry    bool // ClientOption.DisableRetry
 }
 
 func (w *world) newCall(multi bool) *call {
@@ -107,7 +114,11 @@ func (w *world) newCall(multi bool) *call {
 		case 0:
 			c.errArg = "MYERR custom failure " + uid
 		case 1:
-			c.errArg = "NOSCRIPT reported by the script itself " + uid
+			if w.faultWorld { // keep the listed finding C30-K1 (self-made NOSCRIPT) out of the fault worlds
+				c.errArg = "MYERR another custom failure " + uid
+			} else {
+				c.errArg = "NOSCRIPT reported by the script itself " + uid
+			}
 		}
 		if c.errArg != "" {
 			c.args = append(c.args, c.errArg)
@@ -136,7 +147,8 @@ type seen struct {
 	names   []string // command names received for this uid, in order
 	replies []resp.V // reply to each
 	nodes   []string
-	runs    int // script body executions attributed to this uid
+	faults  []string // per command: the injected fault that hit it ("" = none): close-before-exec | close-after-exec | cut-reply | loading-reply
+	runs    int      // script body executions attributed to this uid
 }
 
 // analyse walks the whole log once and attributes recv / reply / script events to uids.
@@ -163,6 +175,7 @@ func analyse(log []fakeredis.Event) (map[string]*seen, []fakeredis.Event) {
 				s.names = append(s.names, strings.ToUpper(e.Argv[0]))
 				s.nodes = append(s.nodes, e.Node)
 				s.replies = append(s.replies, resp.V{})
+				s.faults = append(s.faults, "")
 			}
 			if len(e.Argv) >= 2 && strings.EqualFold(e.Argv[0], "SCRIPT") && strings.EqualFold(e.Argv[1], "LOAD") && e.Conn != 0 {
 				loads = append(loads, e)
@@ -170,6 +183,12 @@ func analyse(log []fakeredis.Event) (map[string]*seen, []fakeredis.Event) {
 		case "script":
 			if u := cur[k]; u != "" {
 				out[u].runs++
+			}
+		case "fault":
+			if kind, ok := faultKindOf(e.Note); ok {
+				if u, ok := uidOf(e.Argv); ok && out[u] != nil && cur[k] == u {
+					out[u].faults[len(out[u].faults)-1] = kind
+				}
 			}
 		case "reply":
 			if u, ok := uidOf(e.Argv); ok && out[u] != nil {
@@ -196,6 +215,7 @@ func (w *world) witness(c *call, s *seen, extra map[string]any) map[string]any {
 		m["commands_received"] = s.names
 		m["replies"] = rs
 		m["nodes"] = s.nodes
+		m["injected_faults"] = s.faults
 		m["body_runs"] = s.runs
 	}
 	if c.got {
@@ -233,6 +253,11 @@ func shape(s *seen) string {
 		default:
 			sb.WriteString("(ok)")
 		}
+		if f := s.faults[i]; f != "" { // fault worlds: EVAL(?,close-after-exec)
+			b := sb.String()
+			sb.Reset()
+			sb.WriteString(b[:len(b)-1] + "," + f + ")")
+		}
 	}
 	return sb.String()
 }
@@ -252,9 +277,31 @@ func (w *world) checkCall(c *call, s *seen, stateTag string) {
 		}
 		return
 	}
+	// Re-sends after an injected fault (fault worlds only). Read-only script commands are tagged retryable by rueidis
+	// and a *Retryable constructor asks for re-sending in so many words, so for those two kinds of Lua object, in a
+	// step where an injected transport / LOADING fault really fired, a run of the same command is judged as one
+	// command (answered by its last attempt). Every other object, and every step without a fired fault, is judged
+	// on the raw sequence exactly as before.
+	names, replies := s.names, s.replies
+	resendAllowed := c.faulted && (w.v.ro || w.v.retryable)
+	if resendAllowed {
+		names, replies = nil, nil
+		for i, n := range s.names {
+			if i > 0 && n == s.names[i-1] {
+				replies[len(replies)-1] = s.replies[i]
+				if w.v.ro {
+					run.Observe("resends_of_readonly_script_after_fault", 1)
+				} else {
+					run.Observe("resends_by_retryable_contract_after_fault", 1)
+				}
+				continue
+			}
+			names, replies = append(names, n), append(replies, s.replies[i])
+		}
+	}
 	// 1. allowed command names and order
 	bad := ""
-	for i, n := range s.names {
+	for i, n := range names {
 		ro := strings.HasSuffix(n, "_RO")
 		bySha := strings.HasPrefix(n, "EVALSHA")
 		if ro != w.v.ro {
@@ -287,7 +334,7 @@ func (w *world) checkCall(c *call, s *seen, stateTag string) {
 		case 1:
 			if bySha {
 				bad = "second command is " + n
-			} else if !isNoScript(s.replies[0]) {
+			} else if !isNoScript(replies[0]) {
 				bad = n + " sent although the EVALSHA reply was not NOSCRIPT"
 			}
 		default:
@@ -299,8 +346,13 @@ func (w *world) checkCall(c *call, s *seen, stateTag string) {
 	}
 	// 2. body executions
 	if s.runs > 1 {
-		run.Violation("body-executed-twice", keyTail+"|"+sh, w.witness(c, s, nil))
+		if resendAllowed && s.runs <= len(s.names)-len(names)+1 {
+			run.Observe("body_reruns_by_allowed_resend", 1)
+		} else {
+			run.Violation("body-executed-twice", keyTail+"|"+sh, w.witness(c, s, nil))
+		}
 	}
+	w.observeFaults(c, s)
 	if !w.v.ro {
 		// the data must agree with the interpreter's counter
 		node := w.srv.Node(w.addrs[0])
@@ -313,7 +365,7 @@ func (w *world) checkCall(c *call, s *seen, stateTag string) {
 			if !v.IsNull() {
 				n, _ = strconv.ParseInt(v.S, 10, 64)
 			}
-			if n > 1 {
+			if n > 1 && !(resendAllowed && int(n) <= len(s.names)-len(names)+1) {
 				run.Violation("body-executed-twice", keyTail+"|"+sh, w.witness(c, s, map[string]any{"counter_key": k, "counter": n}))
 			}
 			if int(n) != s.runs {
@@ -341,6 +393,8 @@ func (w *world) checkCall(c *call, s *seen, stateTag string) {
 			run.Observe("results_matched", 1)
 		} else if re, ok := rueidis.IsRedisErr(err); ok && re.IsNoScript() && !strings.Contains(err.Error(), "reported by the script itself") {
 			run.Observe("noscript_results", 1) // ExecMulti after a flush between LOAD and EVALSHA: allowed
+		} else if _, isRE := rueidis.IsRedisErr(err); c.faulted && (!isRE || strings.Contains(err.Error(), "LOADING injected")) {
+			run.Observe("fault_error_results", 1) // the injected fault (or its collateral damage on the shared connection) surfaced as the call's error
 		} else if c.errArg != "" {
 			if !strings.Contains(err.Error(), c.uid) {
 				run.Violation("result-of-another-call", keyTail, w.witness(c, s, nil))
@@ -502,7 +556,13 @@ func (w *world) checkLoads(log []fakeredis.Event) {
 		isExec := st.kind == "exec" || st.kind == "concurrent"
 		loadsInExec, after, ok, failed := 0, 0, 0, 0
 		knownBefore := known
+		cut := map[int64]bool{} // connection -> the reply of the SCRIPT LOAD being processed is cut by an injected fault (fault worlds)
 		for _, e := range log[st.from:st.to] {
+			if e.Kind == "fault" && e.Conn != 0 {
+				if k, ok := faultKindOf(e.Note); ok && k == "cut-reply" && len(e.Argv) > 0 && strings.EqualFold(e.Argv[0], "SCRIPT") {
+					cut[e.Conn] = true
+				}
+			}
 			if e.Conn == 0 || len(e.Argv) < 3 || !strings.EqualFold(e.Argv[0], "SCRIPT") || !strings.EqualFold(e.Argv[1], "LOAD") || e.Argv[2] != w.src {
 				continue
 			}
@@ -516,7 +576,11 @@ func (w *world) checkLoads(log []fakeredis.Event) {
 				}
 				w.run.Observe("script_load_cmds", 1)
 			case "reply":
-				if e.Reply.T == '$' && !e.Reply.Null2 {
+				if cut[e.Conn] {
+					// the server answered but the connection was cut inside this reply: the client never saw the SHA
+					delete(cut, e.Conn)
+					w.run.Observe("script_load_replies_lost", 1)
+				} else if e.Reply.T == '$' && !e.Reply.Null2 {
 					ok++
 					if isExec {
 						known = "Exec"
@@ -634,7 +698,8 @@ func shaOf(s *fakeredis.Server, addr, src string) string {
 func TestC30(t *testing.T) {
 	run := mon.Start(t, "C30", "exploration",
 		"per case one Lua object (10 constructor/option variants x {single, 3-node cluster} x script body) driven through a random history of Exec / ExecMulti(1-8 LuaExecs) / 3-8 concurrent Execs / SCRIPT FLUSH on all or one node / script pre-loaded on a subset of nodes / flush between ExecMulti's LOAD and EVALSHA / failing SCRIPT LOAD; "+
-			"each call carries a unique uid (ARGV[1], returned by the script) and its own counter key; a case is (constructor, client kind, Exec|ExecMulti, step kind, observed command/reply sequence); non-trivial when the call reached the server")
+			"each call carries a unique uid (ARGV[1], returned by the script) and its own counter key; a case is (constructor, client kind, Exec|ExecMulti, step kind, observed command/reply sequence); non-trivial when the call reached the server; "+
+			"then fault worlds (faults_test.go): per world one Lua object (10 variants x {forced single, standalone, 3-node cluster} x retries on / off) and one step per (command of the sequence: SCRIPT LOAD, first command, fall-back EVAL after NOSCRIPT) x (connection closed before execution, closed after execution without reply, reply cut after 1-3 bytes, -LOADING reply) x cache state, through Exec, ExecMulti and concurrent Execs")
 	defer run.Finish()
 	run.Assume("fakeredis executes scripts with minilua and logs one 'script' event per body execution on the requesting connection", "the NOSCRIPT / script cache behaviour of fakeredis (per node cache, EVAL loads, SCRIPT FLUSH empties) is that of Redis")
 	n := run.N(1000, 8000)
@@ -649,5 +714,6 @@ func TestC30(t *testing.T) {
 			runCase(t, run, i, rand.New(rand.NewSource(base+int64(i)*104729)))
 		}()
 	}
+	runFaultWorlds(t, run)
 	run.Require("noscript_fallbacks", "evalsha_hits", "bodies_run_once", "results_matched", "execmulti_calls", "concurrent_execs", "flushes", "script_load_cmds", "counter_keys_checked", "exec_steps_without_script_load", "script_load_failures_seen")
 }
